@@ -104,3 +104,49 @@ func init() {
 		})
 	}
 }
+
+// golang.org/x/text/message: only Printer.Sprintf("%d") with English thousands separators is used.
+type xtextPrinter struct{}
+
+func groupThousands(s string) string {
+	neg := false
+	if len(s) > 0 && s[0] == '-' {
+		neg = true
+		s = s[1:]
+	}
+	var out []byte
+	for i := 0; i < len(s); i++ {
+		if i > 0 && (len(s)-i)%3 == 0 {
+			out = append(out, ',')
+		}
+		out = append(out, s[i])
+	}
+	if neg {
+		return "-" + string(out)
+	}
+	return string(out)
+}
+
+func init() {
+	extGlobals["golang.org/x/text/language.English"] = func(i *interpreter) value { return &opaqueObj{"language.English"} }
+	reg("golang.org/x/text/message.NewPrinter", func(fr *frame, a []value) value {
+		var v value = &xtextPrinter{}
+		return &v
+	})
+	reg("(*golang.org/x/text/message.Printer).Sprintf", func(fr *frame, a []value) value {
+		key := a[1]
+		if ki, ok := key.(iface); ok {
+			key = ki.v
+		}
+		format, _ := key.(string)
+		args := a[2].([]value)
+		if format != "%d" || len(args) != 1 {
+			Unsupported("message.Printer.Sprintf(%q)", format)
+		}
+		arg := args[0].(iface)
+		if _, ok := arg.v.(*Sym); ok {
+			Unsupported("message.Printer.Sprintf of symbolic number")
+		}
+		return groupThousands(strconv.FormatInt(asInt64(arg.v), 10))
+	})
+}
